@@ -36,6 +36,7 @@ type Config struct {
 	PreemptNum   int // sticky: preempt probability numerator (denominator 1000)
 	ChangePoints int // prio: number of priority change points
 	ExpectSteps  int // prio: range in which change points are placed
+	StallPm      int // per scheduling decision: chance (per mille) that simulated time passes while runnable goroutines stay parked
 	MaxSteps     int // abort the run (not a violation) after this many scheduler decisions
 	Horizon      time.Duration
 	Debug        bool
@@ -140,6 +141,8 @@ type Sim struct {
 	aborted   bool
 
 	Steps     int
+	Stalls    int
+	longStall bool
 	Yields    int64
 	tokYields int64
 	Preempts  int
@@ -387,6 +390,7 @@ func (s *Sim) IsTokenHolder() bool {
 
 // Result of one run.
 type Result struct {
+	Stalls     int
 	Steps      int
 	Yields     int64
 	Preempts   int
@@ -470,6 +474,7 @@ func Run(t *testing.T, cfg Config, choice *Choice, body func(s *Sim)) (res *Resu
 	res.Steps = s.Steps
 	res.Yields = s.Yields
 	res.Preempts = s.Preempts
+	res.Stalls = s.Stalls
 	res.MaxReady = s.MaxReady
 	res.Hash = s.hash
 	res.SchedHash = s.schedHash
@@ -499,6 +504,35 @@ func (s *Sim) loop() {
 				s.OverStep = true
 				s.mu.Unlock()
 				return
+			}
+			// "stalled goroutine" fault: every runnable goroutine stays parked while
+			// simulated time passes, so timers fire in the middle of what is, for the
+			// parked goroutines, straight-line code between two synchronisation points
+			// (a descheduled thread, a GC pause, a slow core).
+			// Bounded so that it cannot starve a goroutine beyond the settle bounds the
+			// oracles use: at most 12 stalls per run, at most one of them long (1.2 s).
+			if s.Cfg.StallPm > 0 && s.Stalls < 12 && s.Choice.Intn(1000) >= 1000-s.Cfg.StallPm {
+				d := []time.Duration{time.Microsecond, 150 * time.Microsecond, 3 * time.Millisecond, 1200 * time.Millisecond}[s.Choice.Intn(4)]
+				if d > time.Second {
+					if s.longStall {
+						d = 3 * time.Millisecond
+					}
+					s.longStall = true
+				}
+				s.Stalls++
+				s.mix(0x57a11, uint64(d))
+				if s.Cfg.Debug {
+					s.debugLog = append(s.debugLog, fmt.Sprintf("[step %d t=%v] stall %v with %d runnable", s.Steps, time.Since(s.start), d, n))
+				}
+				s.mu.Unlock()
+				tm := time.NewTimer(d)
+				select {
+				case <-s.wake:
+					tm.Stop()
+				case <-tm.C:
+				}
+				time.Sleep(time.Nanosecond)
+				continue
 			}
 			sort.Slice(s.parked, func(i, j int) bool { return keyLess(s.parked[i].key, s.parked[j].key) })
 			idx := s.pickLocked(n)
